@@ -45,6 +45,8 @@ if ok:
     dst = os.path.join("/verif/seeded", name)
     os.makedirs(dst, exist_ok=True)
     for f in os.listdir(src):
-        if f != "meta.json": shutil.copy(os.path.join(src, f), dst)
+        if f == "meta.json": continue
+        if os.path.isdir(os.path.join(src, f)): shutil.copytree(os.path.join(src, f), os.path.join(dst, f), dirs_exist_ok=True)
+        else: shutil.copy(os.path.join(src, f), dst)
     json.dump(meta, open(os.path.join(dst, "meta.json"), "w"), indent=1)
 subprocess.run("git -C /repo worktree remove --force %s" % wt, shell=True)
